@@ -12,6 +12,13 @@ images against the reference rendering of their result tables (full product of
 mode x local-background source x grouper x first-iteration source x scene, with
 several fitting iterations and a different local background per source), and
 ``make_psf_model_image`` against ``make_model_image`` on its returned table.
+
+Second table family (VALUE alphabet): row type = position {interior, edge, remote, far outside} x value of the
+flux/amplitude column {positive, exactly 0, negative, NaN}, every row with its own non-zero local_bkg; all ordered
+tables of 1..2 (core: 1..3; thorough: 1..3 everywhere) rows x model x model_shape mode x local_bkg column x
+discretisation.  It contains the rows whose model stamp is identically zero (zero flux, or an image PSF evaluated
+beyond its support) as the only row, before and after other rows, with and without local_bkg and units.
+PSFPhotometry additionally runs with a fixed flux parameter and init fluxes {+, 0, -, +} (flux_fit == 0 exactly).
 """
 import itertools
 import math
@@ -31,9 +38,21 @@ RULE = ('full product: every ordered table of 1..3 rows (quick: 3-row tables for
         '{(5,5), (4,6), scalar 5, per-row 2-D column, per-row 1-D column, bounding box} x local_bkg column {absent, '
         'present} x discretize_method {center, interp, oversample(3)} on a 9x11 and a 1x5 image. A table is '
         'non-trivial when at least one row overlaps the image and at least one row is clipped by the image edge or '
-        'does not overlap at all. Distinct by construction (product indices). PSF-photometry images: PSFPhotometry '
+        'does not overlap at all. Distinct by construction (product indices). VALUE alphabet (image 9x11): 16 row '
+        'types = position {interior, on the edge, "remote" (-4.6, 4.0): reached only by windows >= 11 px wide and '
+        'then beyond the 7x7 support of the image PSF, far outside} x flux/amplitude value {positive, exactly 0, '
+        'negative, NaN}, every row type with its own non-zero local_bkg (one negative); every ordered table of 1..2 '
+        'rows (272; the 6 core configurations model x (5,11) x local_bkg column x center and the whole thorough tier: '
+        '1..3 rows, 4368) x model (the same 6) x model_shape mode {(5,5), (5,11), per-row 2-D column, bounding box} x '
+        'local_bkg column {present, absent} x discretize_method {center, interp, oversample(3)} = 138 configurations. '
+        'Such a table is non-trivial when a row that reaches the image is degenerate: value 0 / negative / NaN, or '
+        'its reference model stamp is identically zero (measured; counters say how many tables have such a row and '
+        'in how many EVERY overlapping row has a zero stamp - the unit must still be attached). NaN rows: the NaN '
+        'pixels of the image must be exactly the union of the NaN rows\' windows. PSF-photometry images: PSFPhotometry '
         'over {PRF, ImagePSF, unit-ful data} x local background from {per-row init column, LocalBackground estimator '
-        'on a sloping background} x {no grouper, grouper whose group order differs from the table order}; '
+        'on a sloping background} x {no grouper, grouper whose group order differs from the table order} x flux '
+        '{fitted (4 positive stars), flux parameter fixed with init fluxes {+, exactly 0, -, +} on a scene whose '
+        'third star is negative: flux_fit == 0 exactly with a non-zero local_bkg, counted from the results table}; '
         'IterativePSFPhotometry over scene {A: 1 bright+faint pair + 1 star, B: 2 pairs + 2 stars} x background '
         '{flat, sloping} x local background {none, LocalBackground estimator} x mode {new, all} x grouper {none, '
         'SourceGrouper} (mode all needs a grouper) x first iteration from {finder, init table with a local_bkg '
@@ -48,6 +67,8 @@ ASSUMPTIONS = ['astropy/photutils model evaluation (model(x, y)), Table/QTable, 
                'clipped to the image (documented definition of "centred" for even sizes / half-pixel positions)',
                'a unit-ful model with NO row overlapping the image: whether the all-zero image carries the unit is '
                'left open (nothing is rendered); required as soon as one row overlaps',
+               'a NaN or zero or negative flux/amplitude is an admissible table value (no documented validation rejects '
+               'it); IEEE arithmetic: a pixel sum with a NaN term is NaN, x + 0 == x',
                'PSF photometry images: the public results table (x_fit, y_fit, flux_fit, local_bkg, in table order) is '
                'the statement of which sources with which local backgrounds were fitted; DAOStarFinder, SourceGrouper '
                'and LocalBackground only shape the scenes (their outputs are read from the results table, never '
@@ -56,21 +77,54 @@ ASSUMPTIONS = ['astropy/photutils model evaluation (model(x, y)), Table/QTable, 
 EPS = np.finfo(float).eps
 
 # ---------------------------------------------------------------------------- alphabets
-SHAPES = {'9x11': (9, 11), '1x5': (1, 5)}
+# A ROW ALPHABET is a list of row types; a row type fixes the position, the value of the model's flux/amplitude
+# column, the row's local_bkg and its per-row model shapes.  Tables are all ordered tuples of row-type indices.
+SHAPES = {'9x11': (9, 11), '1x5': (1, 5), 'val9x11': (9, 11)}
 ROWS = {
     '9x11': [(5.2, 4.1), (0.0, 4.0), (10.0, 8.0), (4.5, 3.5), (-0.6, 4.0), (-2.4, 3.0), (11.4, 8.6), (-40.0, 3.0),
              (-2.5, 4.0)],
     '1x5': [(2.0, 0.0), (0.0, 0.0), (4.4, 0.3), (-0.6, 0.0), (7.0, 0.0), (2.5, -0.5)],
 }
-FLUX = [10.0, 13.0, 16.0, 19.0, 22.0, 25.0, 28.0, 31.0, 34.0]
-LBKG = [0.0, 0.5, 0.0, 0.25, 1.5, 0.5, 0.75, 2.0, 0.125]
-ROWSHAPE2D = [(5, 5), (3, 7), (4, 6), (1, 1), (5, 4), (7, 3), (6, 6), (5, 5), (5, 5)]
-ROWSHAPE1D = [5, 3, 4, 7, 5, 6, 2, 5, 5]
+_FLUX = [10.0, 13.0, 16.0, 19.0, 22.0, 25.0, 28.0, 31.0, 34.0]
+_LBKG = [0.0, 0.5, 0.0, 0.25, 1.5, 0.5, 0.75, 2.0, 0.125]
+_ROWSHAPE2D = [(5, 5), (3, 7), (4, 6), (1, 1), (5, 4), (7, 3), (6, 6), (5, 5), (5, 5)]
+_ROWSHAPE1D = [5, 3, 4, 7, 5, 6, 2, 5, 5]
+FLUX = {'9x11': _FLUX, '1x5': _FLUX}
+LBKG = {'9x11': _LBKG, '1x5': _LBKG}
+ROWSHAPE2D = {'9x11': _ROWSHAPE2D, '1x5': _ROWSHAPE2D}
+ROWSHAPE1D = {'9x11': _ROWSHAPE1D, '1x5': _ROWSHAPE1D}
+
+# the VALUE alphabet ('val9x11'): row type = position x value kind (full product, position-major).  Positions:
+# interior; on the edge (clipped window); "remote": 4.6 px outside column 0, so that only windows >= 11 px wide reach
+# the image, and what reaches it lies beyond the 7x7 support of the image PSF (stamp identically zero WHATEVER the
+# flux; for the analytic models merely small); far outside.  Value kinds of the flux / amplitude column: a generic
+# positive number, exactly zero, a negative number, NaN.  Every row type has a non-zero local_bkg of its own (one
+# negative), so that in local_bkg mode 'col' a row whose model stamp vanishes still has something to contribute.
+VPOS = [(5.2, 4.1), (0.0, 4.0), (-4.6, 4.0), (-40.0, 3.0)]
+VPOS_NAMES = ('interior', 'edge', 'remote', 'far-outside')
+VKINDS = ('pos', 'zero', 'neg', 'nan')
+_VVAL = {'pos': [10.0, 13.0, 16.0, 19.0], 'zero': [0.0] * 4, 'neg': [-7.5, -9.0, -11.5, -6.25], 'nan': [float('nan')] * 4}
+_VLB = [1.5, -0.5, 0.75, 2.0]
+_VSHAPE2D = [(5, 5), (3, 7), (5, 11), (1, 1)]
+_VSHAPE1D = [5, 4, 11, 7]
+ROWS['val9x11'] = [VPOS[p] for p in range(4) for _ in VKINDS]
+FLUX['val9x11'] = [_VVAL[k][p] for p in range(4) for k in VKINDS]
+LBKG['val9x11'] = [_VLB[p] + 0.125 * j for p in range(4) for j in range(len(VKINDS))]
+ROWSHAPE2D['val9x11'] = [_VSHAPE2D[p] for p in range(4) for _ in VKINDS]
+ROWSHAPE1D['val9x11'] = [_VSHAPE1D[p] for p in range(4) for _ in VKINDS]
+VALKIND = {'val9x11': [k for p in range(4) for k in VKINDS]}       # main alphabets: every row is 'pos'
+
 MODELS = ('gauss2d', 'prf', 'psf_unit', 'imagepsf', 'compound', 'mapped')
 MSHAPES = ('kw55', 'kw46', 'kwint5', 'col2d', 'col1d', 'bbox')
+VMSHAPES = ('kw55', 'kw511', 'col2d', 'bbox')       # value alphabet: fixed 5x5, fixed 5x11 (reaches 'remote'), per row
 LBMODES = ('col', 'nocol')
 DISC = ('center', 'interp', 'oversample')
 CORE = [(m, ms, 'col', 'center') for m in MODELS for ms in ('kw55', 'col2d')]
+VCORE = [(m, 'kw511', 'col', 'center') for m in MODELS]
+
+
+def valkind(imkey, i):
+    return VALKIND[imkey][i] if imkey in VALKIND else 'pos'
 
 
 def make_model(name):
@@ -105,44 +159,47 @@ def table_for(name, rows, imkey, msmode, lbmode):
     pos = ROWS[imkey]
     x = [pos[i][0] for i in rows]
     y = [pos[i][1] for i in rows]
-    f = [FLUX[i] for i in rows]
-    lb = [LBKG[i] for i in rows]
+    FL = FLUX[imkey]
+    f = [FL[i] for i in rows]
+    lb = [LBKG[imkey][i] for i in rows]
     kw = {}
     if name == 'gauss2d':
         t = Table({'x_mean': x, 'y_mean': y, 'amplitude': f, 'unused': [1.0] * len(rows)})
         kw.update(x_name='x_mean', y_name='y_mean')
-        setter = lambda m, i: _set(m, x_mean=pos[i][0], y_mean=pos[i][1], amplitude=FLUX[i])  # noqa: E731
+        setter = lambda m, i: _set(m, x_mean=pos[i][0], y_mean=pos[i][1], amplitude=FL[i])  # noqa: E731
     elif name in ('prf', 'imagepsf'):
         t = Table({'flux': f, 'y_0': y, 'x_0': x})
-        setter = lambda m, i: _set(m, x_0=pos[i][0], y_0=pos[i][1], flux=FLUX[i])  # noqa: E731
+        setter = lambda m, i: _set(m, x_0=pos[i][0], y_0=pos[i][1], flux=FL[i])  # noqa: E731
     elif name == 'psf_unit':
         t = QTable({'x_0': x, 'y_0': y, 'flux': f * u.Jy})
-        setter = lambda m, i: _set(m, x_0=pos[i][0], y_0=pos[i][1], flux=FLUX[i] * u.Jy)  # noqa: E731
+        setter = lambda m, i: _set(m, x_0=pos[i][0], y_0=pos[i][1], flux=FL[i] * u.Jy)  # noqa: E731
     elif name == 'compound':
         t = Table({'x': x, 'y': y, 'f0': f, 'f1': [0.5 * v for v in f]})
         kw.update(x_name='x_0_0', y_name='y_0_0',
                   params_map={'x_0_0': 'x', 'y_0_0': 'y', 'x_0_1': 'x', 'y_0_1': 'y', 'flux_0': 'f0', 'flux_1': 'f1'})
         setter = lambda m, i: _set(m, x_0_0=pos[i][0], y_0_0=pos[i][1], x_0_1=pos[i][0], y_0_1=pos[i][1],  # noqa: E731
-                                   flux_0=FLUX[i], flux_1=0.5 * FLUX[i])
+                                   flux_0=FL[i], flux_1=0.5 * FL[i])
     else:
         # 'amplitude' column is present AND remapped: params_map takes precedence (documented)
         t = Table({'xcol': x, 'ycol': y, 'amp': f, 'amplitude': [999.0] * len(rows), 'sx': [1.0 + 0.1 * i for i in rows]})
         kw.update(x_name='x_mean', y_name='y_mean',
                   params_map={'x_mean': 'xcol', 'y_mean': 'ycol', 'amplitude': 'amp', 'x_stddev': 'sx'})
-        setter = lambda m, i: _set(m, x_mean=pos[i][0], y_mean=pos[i][1], amplitude=FLUX[i], x_stddev=1.0 + 0.1 * i)  # noqa: E731
+        setter = lambda m, i: _set(m, x_mean=pos[i][0], y_mean=pos[i][1], amplitude=FL[i], x_stddev=1.0 + 0.1 * i)  # noqa: E731
     if lbmode == 'col':
         t['local_bkg'] = lb * u.Jy if name == 'psf_unit' else lb
     if msmode == 'kw55':
         kw['model_shape'] = (5, 5)
     elif msmode == 'kw46':
         kw['model_shape'] = (4, 6)
+    elif msmode == 'kw511':
+        kw['model_shape'] = (5, 11)
     elif msmode == 'kwint5':
         kw['model_shape'] = 5
     elif msmode == 'col2d':
-        t['model_shape'] = np.array([ROWSHAPE2D[i] for i in rows])
+        t['model_shape'] = np.array([ROWSHAPE2D[imkey][i] for i in rows])
         kw['model_shape'] = (9, 9)          # documented: ignored when the column is present
     elif msmode == 'col1d':
-        t['model_shape'] = [ROWSHAPE1D[i] for i in rows]
+        t['model_shape'] = [ROWSHAPE1D[imkey][i] for i in rows]
     return t, kw, setter
 
 
@@ -152,15 +209,17 @@ def _set(m, **kw):
     return m
 
 
-def row_shape(msmode, i, model_i):
+def row_shape(imkey, msmode, i, model_i):
     if msmode in ('kw55', 'kwint5'):
         return (5, 5)
     if msmode == 'kw46':
         return (4, 6)
+    if msmode == 'kw511':
+        return (5, 11)
     if msmode == 'col2d':
-        return ROWSHAPE2D[i]
+        return ROWSHAPE2D[imkey][i]
     if msmode == 'col1d':
-        return (ROWSHAPE1D[i], ROWSHAPE1D[i])
+        return (ROWSHAPE1D[imkey][i], ROWSHAPE1D[imkey][i])
     bb = model_i.bounding_box.bounding_box()       # ((ymin, ymax), (xmin, xmax))
     return (int(math.ceil(bb[0][1] - bb[0][0])), int(math.ceil(bb[1][1] - bb[1][0])))
 
@@ -207,19 +266,25 @@ class Config:
         self.model = make_model(name)
         self.unitful = name == 'psf_unit'
         self.rowimg, self.overlap, self.clipped, self.abuts = {}, {}, {}, {}
+        # value alphabet: kind of the row's flux value and whether the reference MODEL stamp (without local_bkg) is
+        # identically zero on the row's non-empty window (measured, not assumed)
+        self.kind, self.zerostamp = {}, {}
         ny, nx = self.shape
         for i, (x, y) in enumerate(ROWS[imkey]):
             _, _, setter = table_for(name, [i], imkey, msmode, lbmode)
             m = setter(self.model.copy(), i)
-            sh = row_shape(msmode, i, m)
+            sh = row_shape(imkey, msmode, i, m)
             y0, y1 = window(y, sh[0], ny)
             x0, x1 = window(x, sh[1], nx)
             img = np.zeros(self.shape)
             ov = y1 > y0 and x1 > x0
+            self.kind[i] = valkind(imkey, i)
+            self.zerostamp[i] = False
             if ov:
                 v = evaluate(m, y0, y1, x0, x1, disc)
                 v = np.asarray(getattr(v, 'value', v), dtype=float)
-                img[y0:y1, x0:x1] = v + (LBKG[i] if lbmode == 'col' else 0.0)
+                self.zerostamp[i] = bool(np.all(v == 0))
+                img[y0:y1, x0:x1] = v + (LBKG[imkey][i] if lbmode == 'col' else 0.0)
             self.rowimg[i] = img
             self.overlap[i] = ov
             self.clipped[i] = ov and ((y1 - y0) * (x1 - x0) < sh[0] * sh[1])
@@ -243,12 +308,25 @@ def check_table(acc, cfg, rows, mmi):
     t, kw, _ = table_for(cfg.name, rows, cfg.imkey, cfg.msmode, cfg.lbmode)
     kw.update(cfg.call_kwargs())
     any_ov = any(cfg.overlap[i] for i in rows)
-    nontrivial = any_ov and any(cfg.clipped[i] or not cfg.overlap[i] for i in rows)
+    ovrows = [i for i in rows if cfg.overlap[i]]
+    zero_rows = [i for i in ovrows if cfg.zerostamp[i]]
+    all_zero = any_ov and len(zero_rows) == len(ovrows)
+    if cfg.imkey in VALKIND:
+        # value alphabet: some row that reaches the image is degenerate (zero / negative / NaN value or zero stamp)
+        nontrivial = any(cfg.kind[i] != 'pos' or cfg.zerostamp[i] for i in ovrows)
+        acc.counters['value_tables_with_an_overlapping_zero-stamp_row'] += int(bool(zero_rows))
+        acc.counters['value_tables_where_every_overlapping_row_has_a_zero_stamp'] += int(all_zero)
+        acc.counters['value_tables_with_an_overlapping_NaN_row'] += int(any(cfg.kind[i] == 'nan' and not cfg.zerostamp[i]
+                                                                            for i in ovrows))
+    else:
+        nontrivial = any_ov and any(cfg.clipped[i] or not cfg.overlap[i] for i in rows)
     acc.case(nontrivial=nontrivial, sample=case if acc.evaluations % 2003 == 17 else None)
     model = cfg.model
     before = (digest(model), digest(t))
     first_ov = cfg.overlap[rows[0]]
-    pred = ('unitful' if cfg.unitful else 'unitless') + (':first-row-overlaps' if first_ov else ':first-row-off-image')
+    pred = ('unitful' if cfg.unitful else 'unitless') + (
+        ':every-overlapping-row-has-a-zero-stamp' if all_zero else
+        (':first-row-overlaps' if first_ov else ':first-row-off-image'))
     try:
         with warnings.catch_warnings():
             warnings.simplefilter('ignore')
@@ -286,15 +364,25 @@ def check_table(acc, cfg, rows, mmi):
     # windows -> relative 5e-14 (measured on the unchanged tree: 9e-15) -> 512 eps = 1.1e-13
     tol = {'center': 8, 'interp': 32, 'oversample': 512}[cfg.disc] * EPS * mag + 1e-300
     acc.outcome(val.tobytes())
-    bad = np.abs(val - ref) > tol
+    # NaN rows (value alphabet): a sum with a NaN term is NaN -- the NaN pixels must be exactly those of the reference
+    # (the union of the NaN rows' windows), all other pixels compare as usual
+    nanref = np.isnan(ref)
+    with np.errstate(invalid='ignore'):
+        bad = (np.isnan(val) != nanref) | (~nanref & (np.abs(val - ref) > tol))
     if bad.any():
         j = tuple(int(v) for v in np.argwhere(bad)[0])
-        # name the defect: which kind of row / window is involved
-        site = f'{cfg.disc}:' + ('offimage-row' if not all(cfg.overlap[i] for i in rows) else
-                                 ('clipped-row' if any(cfg.clipped[i] for i in rows) else 'interior'))
-        acc.violation('superposition', site, case, val[j], ref[j],
+        # name the defect: which kind of row / window is involved (degenerate value kinds first: they exist only in
+        # the value alphabet, so the keys of the main alphabets are unchanged)
+        kinds = {cfg.kind[i] for i in ovrows}
+        what = ('zero-stamp-row' if zero_rows else
+                'nan-row' if 'nan' in kinds else
+                'negative-row' if 'neg' in kinds else
+                'offimage-row' if not all(cfg.overlap[i] for i in rows) else
+                'clipped-row' if any(cfg.clipped[i] for i in rows) else 'interior')
+        dev = np.abs(np.where(nanref | np.isnan(val), 0.0, val - ref)).max()
+        acc.violation('superposition', f'{cfg.disc}:{what}', case, val[j], ref[j],
                       f'pixel {j}: image != sum of per-row model windows (+ local_bkg); {int(bad.sum())} pixels differ, '
-                      f'max |dev| {np.abs(val - ref).max():.3g}')
+                      f'max |dev| {dev:.3g}')
 
 
 def table_sizes(tier, core):
@@ -303,7 +391,7 @@ def table_sizes(tier, core):
 
 def configs(tier):
     out = []
-    for imkey in SHAPES:
+    for imkey in ('9x11', '1x5'):
         for name in MODELS:
             for ms in MSHAPES:
                 if ms == 'bbox' and not has_bbox(name):
@@ -313,6 +401,19 @@ def configs(tier):
                         if imkey == '1x5' and tier != 'thorough' and (disc != 'center' or lb == 'nocol'):
                             continue
                         out.append((imkey, name, ms, lb, disc))
+    return out
+
+
+def value_configs(tier):
+    """Value alphabet: model x model_shape mode x local_bkg column x discretisation, full product in both tiers."""
+    out = []
+    for name in MODELS:
+        for ms in VMSHAPES:
+            if ms == 'bbox' and not has_bbox(name):
+                continue
+            for lb in LBMODES:
+                for disc in DISC:
+                    out.append(('val9x11', name, ms, lb, disc))
     return out
 
 
@@ -327,6 +428,17 @@ def plan(tier, seed):
     for j in range(4):
         units.append({'kind': 'iterative', 'part': [j, 4]})
     units.append({'kind': 'psfmodelimage'})
+    # value alphabet (appended: the unit indices of the older families stay what they were); a core configuration
+    # with its 3-row tables is a unit of its own
+    vcfgs = value_configs(tier)
+    step = 3 if tier == 'thorough' else 6
+    rest = [c for c in vcfgs if tuple(c[1:]) not in VCORE] if tier != 'thorough' else vcfgs
+    if tier != 'thorough':
+        for c in vcfgs:
+            if tuple(c[1:]) in VCORE:
+                units.append({'kind': 'tables', 'cfgs': [list(c)]})
+    for j in range(0, len(rest), step):
+        units.append({'kind': 'tables', 'cfgs': [list(c) for c in rest[j:j + step]]})
     return units
 
 
@@ -336,7 +448,7 @@ def run_unit(unit, tier, seed):
     if unit['kind'] == 'tables':
         for (imkey, name, ms, lb, disc) in unit['cfgs']:
             cfg = Config(imkey, name, ms, lb, disc)
-            core = (name, ms, lb, disc) in CORE and imkey == '9x11'
+            core = ((name, ms, lb, disc) in CORE and imkey == '9x11') or ((name, ms, lb, disc) in VCORE and imkey == 'val9x11')
             n = len(ROWS[imkey])
             for k in table_sizes(tier, core):
                 for rows in itertools.product(range(n), repeat=k):
@@ -382,16 +494,22 @@ PSF_SHAPES = (None, 5, (5, 7), (4, 6))
 PP_WHICH = ('prf', 'imagepsf', 'units')
 PP_LBSRC = ('init-column', 'estimator')
 PP_GROUPER = ('none', 'grouper')
+# 'fit': all four fluxes are fitted (positive stars); 'fixed-degenerate': the model's flux parameter is fixed
+# (forced-flux photometry, only the positions are fitted), the init fluxes are {positive, exactly 0, negative, positive}
+# and the third star of the scene is a negative one: the results table then has a row with flux_fit == 0 exactly
+# (identically zero model stamp, non-zero local_bkg) and a row with a negative flux
+PP_FLUX = ('fit', 'fixed-degenerate')
 
 
 def psfphot_configs():
     for which in PP_WHICH:
         for lbsrc in PP_LBSRC:
             for grp in PP_GROUPER:
-                yield {'which': which, 'lbsrc': lbsrc, 'grouper': grp}
+                for fl in PP_FLUX:
+                    yield {'which': which, 'lbsrc': lbsrc, 'grouper': grp, 'flux': fl}
 
 
-def _scene(which, lbsrc, seed):
+def _scene(which, lbsrc, seed, flux='fit'):
     """Four stars on 15x17; rows 0 and 2 of the init table are 3.6 px apart (one group with SourceGrouper(4)) while
     row 1 lies between them in table order: group order != table order.  lbsrc 'init-column': per-row local_bkg
     given by the user; 'estimator': no column, a LocalBackground estimator on a sloping background (a different
@@ -404,9 +522,12 @@ def _scene(which, lbsrc, seed):
     else:
         psf = CircularGaussianPRF(fwhm=2.5)
     xs, ys, fs = [8.2, 1.3, 10.6, 13.6], [7.4, 7.8, 9.0, 1.2], [100.0, 80.0, 70.0, 60.0]
+    if flux != 'fit':
+        fs[2] = -70.0
     img, _ = ref_render((15, 17), psf, xs, ys, fs, [0.7] * 4, (9, 9))
     img = img + 0.01 * rng.random(img.shape)
-    init = Table({'x': [8.0, 1.0, 11.0, 14.0], 'y': [7.0, 8.0, 9.0, 1.0], 'flux': [90.0, 70.0, 60.0, 50.0]})
+    init = Table({'x': [8.0, 1.0, 11.0, 14.0], 'y': [7.0, 8.0, 9.0, 1.0],
+                  'flux': [90.0, 70.0, 60.0, 50.0] if flux == 'fit' else [90.0, 0.0, -60.0, 50.0]})
     if lbsrc == 'init-column':
         init['local_bkg'] = [0.7, 0.3, 0.6, 0.5]
     else:
@@ -498,9 +619,13 @@ def run_psfphot_config(acc, cfg, seed):
     from photutils.background import LocalBackground, MedianBackground
     from photutils.psf import PSFPhotometry, SourceGrouper
     which = cfg['which']
-    psf, img, init = _scene(which, cfg['lbsrc'], seed)
+    flux = cfg.get('flux', 'fit')
+    psf, img, init = _scene(which, cfg['lbsrc'], seed, flux)
     # the reference keeps its own pristine model
-    ph = PSFPhotometry(psf.copy(), (5, 5), aperture_radius=3,
+    fitmodel = psf.copy()
+    if flux != 'fit':
+        fitmodel.flux.fixed = True
+    ph = PSFPhotometry(fitmodel, (5, 5), aperture_radius=3,
                        grouper=SourceGrouper(4.0) if cfg['grouper'] == 'grouper' else None,
                        localbkg_estimator=(LocalBackground(3.5, 6.5, MedianBackground())
                                            if cfg['lbsrc'] == 'estimator' else None))
@@ -530,9 +655,15 @@ def run_psfphot_config(acc, cfg, seed):
         if not (gid[0] == gid[2] and gid[1] != gid[0]):
             raise RuntimeError(f'psfphot scene: rows 0 and 2 are expected to form a group around row 1, got {gid}')
     lb = np.asarray(getattr(res['local_bkg'], 'value', res['local_bkg']), float)
+    ff = np.asarray(getattr(res['flux_fit'], 'value', res['flux_fit']), float)
+    zero_row = bool(np.any((ff == 0) & (lb != 0)))      # measured on the PUBLIC results table
     acc.counters['psfphot_configs'] += 1
     acc.counters['psfphot_configs_with_distinct_local_bkg_per_source'] += int(len(set(lb.tolist())) == len(lb))
-    _check_images(acc, ph, res, psf, forms, f'psfphot-{which}', base_case=base)
+    acc.counters['psfphot_configs_with_a_row_flux_fit==0_and_local_bkg!=0'] += int(zero_row)
+    acc.counters['psfphot_configs_with_a_negative_flux_fit'] += int(bool(np.any(ff < 0)))
+    # a fixed-degenerate configuration counts as non-trivial only if the zero-flux row really is in the table
+    _check_images(acc, ph, res, psf, forms, f'psfphot-{which}' + (':zero-flux-row' if zero_row else ''), base_case=base,
+                  nontrivial=(flux == 'fit' or zero_row))
 
 
 def run_psfphot(acc, which, seed):
@@ -674,7 +805,7 @@ def replay(case, seed):
         cfg = Config(case['image'], case['model'], case['model_shape'], case['local_bkg'], case['discretize'])
         check_table(acc, cfg, tuple(case['rows']), make_model_image)
     elif kind == 'psfphot':
-        run_psfphot_config(acc, {k: case[k] for k in ('which', 'lbsrc', 'grouper')}, seed)
+        run_psfphot_config(acc, {k: case[k] for k in ('which', 'lbsrc', 'grouper', 'flux') if k in case}, seed)
     elif kind == 'iterative':
         run_iterative_config(acc, {k: case[k] for k in ('scene', 'bkg', 'localbkg', 'mode', 'grouper', 'init')}, seed)
     else:
@@ -691,6 +822,15 @@ def describe(tier, seed):
                          'core configurations (3-row tables in quick)': len(CORE),
                          'tables per configuration': {'1..2 rows': '9+81 (9x11) / 6+36 (1x5)',
                                                       '1..3 rows': '819 (9x11) / 258 (1x5)'},
+                         'value alphabet (second table family, image 9x11)': {
+                             'positions (x, y)': dict(zip(VPOS_NAMES, [list(p) for p in VPOS])),
+                             'flux/amplitude value kinds': {k: [None if v != v else v for v in _VVAL[k]] for k in VKINDS},
+                             'local_bkg of the 16 row types (column present)': LBKG['val9x11'],
+                             'per-row model_shape column by position': [list(v) for v in _VSHAPE2D],
+                             'model_shape modes': list(VMSHAPES), 'models': list(MODELS), 'local_bkg': list(LBMODES),
+                             'discretize': list(DISC), 'configurations': len(value_configs(tier)),
+                             'core configurations (3-row tables in quick)': len(VCORE),
+                             'tables per configuration': {'1..2 rows': 16 + 256, '1..3 rows': 16 + 256 + 4096}},
                          'psf photometry': {'psf_shape': [None, 5, [5, 7], [4, 6]], 'include_localbkg': [False, True],
                                             'output shapes': 'data shape (15x17; iterative scene B: 19x23) and 5 px smaller',
                                             'PSFPhotometry configurations': list(psfphot_configs()),
